@@ -359,17 +359,9 @@ func (a *absState) encodeReq(l *hx.L, r *sreq, ci int, host string, connID []int
 				}
 				continue
 			}
-			var u1 string
-			if aq != "" {
-				u1 = "rtsp://" + host + ap + "?" + aq + "/" + c
-			} else {
-				u1 = "rtsp://" + host + ap + "/" + c
-			}
-			u2 := "rtsp://" + host + ap + "/" + c
-			if aq != "" {
-				u2 += "?" + aq
-			}
-			if u1 == full || u2 == full {
+			// components are compared (fix d1622fe): FFmpeg format = control after the query,
+			// GStreamer format = control after the path
+			if (upath == ap && uquery == aq+"/"+c) || (upath == ap+"/"+c && uquery == aq) {
 				found = i
 				break
 			}
